@@ -3,6 +3,7 @@ package ants
 import (
 	"context"
 	"sync"
+	"sync/atomic"
 )
 
 /********************************************************************
@@ -69,6 +70,7 @@ func (my *taskCallback) runTaskOnce(ctx context.Context) {
 	defer cancel() // cancel()使得my.handler(ctx)有时机检测到已经超时了, 可以提前返回
 
 	var doneChan = make(chan struct{})
+	var decided int32 // 本次尝试的结果只能由一方决定: 1=handler的返回值生效, 2=超时
 	my.pool.sendInnerCallback(func() {
 		defer close(doneChan)
 		var result, err = my.handler(ctx1)
@@ -77,7 +79,9 @@ func (my *taskCallback) runTaskOnce(ctx context.Context) {
 		case <-ctx1.Done(): // 代码走到这里的时候, 一定是超时了, 外面的runTaskOnce()主体逻辑一定执行完成了, 因此不设置my.result
 		default:
 			verifYield(1)
-			my.result, my.err = result, err
+			if atomic.CompareAndSwapInt32(&decided, 0, 1) {
+				my.result, my.err = result, err
+			}
 		}
 	})
 
@@ -86,6 +90,12 @@ func (my *taskCallback) runTaskOnce(ctx context.Context) {
 	case <-doneChan:
 	case <-ctx1.Done():
 		verifYield(2)
+	}
+
+	// 无论从哪个分支出来, 如果handler的结果没有生效, 则本次尝试按超时处理; 否则等待handler的结果发布完成
+	if atomic.CompareAndSwapInt32(&decided, 0, 2) {
 		my.result, my.err = nil, context.DeadlineExceeded
+	} else {
+		<-doneChan
 	}
 }
